@@ -75,6 +75,7 @@ PROPS = {
         "units": [
             U("c09", "TestStateTransfer", T(2, 12, 400, shrinktime="60s"), T(3, 80, 1200, shrinktime="240s"), needs=["nodeexec"]),
             U("c09", "TestConcurrentTransfers", T(4, 8, 300, shrinktime="40s"), T(6, 64, 900, shrinktime="120s"), needs=["nodeexec"]),
+            U("c09", "TestKnownFindings", T(None, 1, 120), T(None, 1, 120), needs=["nodeexec"]),
             U("c09", "TestFetchSnapshotGapRule", T(4, 8, 400, shrinktime="60s"), T(6, 80, 900, shrinktime="180s"), needs=["nodeexec"]),
         ],
     },
